@@ -4,7 +4,9 @@
  * never without a signal.
  * args: seed= progs= nw= pairs=
  */
+#ifndef _GNU_SOURCE
 #define _GNU_SOURCE
+#endif
 #include "hkm.h"
 
 /* ---------------------------------------------------------- ping-pong rendezvous over two variables */
